@@ -304,7 +304,15 @@ class SymBool:
             return self.a
         if self.k == 'rel':
             if self.a.has(sp.I):
-                re_, im_ = self.a.as_real_imag()
+                ex_ = sp.expand(self.a)
+                if not ex_.has(sp.I):
+                    return sign_query(ex_, _OPSETS[self.b])
+                re_, im_ = ex_.as_real_imag()
+                if self.b in ('<', '<=', '>', '>='):
+                    # NumPy orders complex numbers lexicographically (real part, then imaginary part)
+                    if sign_query(re_, (ZERO,)):
+                        return sign_query(im_, _OPSETS[self.b])
+                    return sign_query(re_, _OPSETS['<' if self.b in ('<', '<=') else '>'])
                 if self.b == '==':
                     return sign_query(re_, (ZERO,)) and sign_query(im_, (ZERO,))
                 if self.b == '!=':
@@ -844,7 +852,15 @@ def s_abs(a):
         return Sym(0, PINF)
     if a.e.has(sp.I):
         re_, im_ = sp.expand(a.e, complex=True).as_real_imag()
-        return s_sqrt(Sym(sp.expand(re_ ** 2 + im_ ** 2)))
+        rad = sp.expand(re_ ** 2 + im_ ** 2)
+        # |a e^{i phi}|^2 = a^2: use s^2 = 1 - c^2 of the trig atoms before taking the root
+        if active():
+            for key_, (c_, s_, base_) in current().trig_atoms.items():
+                if rad.has(s_):
+                    P_ = sp.Poly(rad, s_)
+                    rad = sp.expand(sum(co_ * (1 - c_ ** 2) ** (k_ // 2) * s_ ** (k_ % 2) for (k_,), co_ in P_.terms()))
+            rad = sp.factor(rad) if rad.count_ops() < 60 else rad
+        return s_sqrt(Sym(rad))
     return Sym(-a.e) if sign_query(a.e, (NEG,)) else a
 
 
